@@ -83,18 +83,23 @@ def coqc_build(ctx, gdir, name, timeout=600):
 
 GEN_OBLIGATIONS = """From Coq Require Import ZArith List String Bool.
 Import ListNotations.
-From TK Require Import Par_Model Par_Spec Par_Region_Model Par_Region_Proof Par_Fill_Model.
+From TK Require Import Par_Model Par_Spec Par_Region_Model Par_Region_Proof Par_Fill_Model Par_Row_Model.
 From CUR Require Import OmpCur.
 Local Open Scope string_scope.
 Definition is_sym_region (r : region) : bool :=
   contains "compute_distance_matrix" (r_name r) || contains "compute_diffusion_matrix" (r_name r) ||
   contains "matrix_from_callback" (r_name r).
 Lemma gen_sym_shapes :
-  Forall (fun r => map acc_shape (r_shared r) = map acc_shape (sym_accs ""))
+  Forall (fun r => same_shapes (r_shared r) (sym_accs "") = true)
          (filter is_sym_region regions).
 Proof. vm_compute. repeat constructor. Qed.
 Lemma gen_regions_ok : forallb check_region regions = true.
 Proof. vm_compute. reflexivity. Qed.
+Lemma gen_row_shape :
+  Forall (fun r => same_shapes (r_shared r) (row_accs "") = true /\\
+                   existsb (fun p => match p_class p with PInit => true | _ => false end) (r_private r) = true)
+         (filter (fun r => contains "triangulate" (r_name r)) regions).
+Proof. vm_compute. repeat constructor. Qed.
 Lemma gen_hlle_is_expected :
   gen_hlle_found = true /\\ gen_hlle_step = hlle_step_expected /\\ gen_hlle_col = hlle_col_expected.
 Proof. repeat split; reflexivity. Qed.
@@ -274,7 +279,7 @@ def run_cases(ctx, exe, cases, combos, timeout=900, env=None):
                     res[int(w[1])]["rows"].append({"t": int(w[2]), "k": int(w[3]), "c": int(w[4]), "hash": w[5],
                                                     "n": int(w[6]), "maxd": float.fromhex(w[7]) if w[7] not in ("inf", "nan", "-nan") else float("inf"),
                                                     "maxr": float.fromhex(w[8]) if w[8] not in ("inf", "nan", "-nan") else float("inf"),
-                                                    "nonfinite": int(w[9])})
+                                                    "nonfinite": int(w[9]), "asg": w[10] if len(w) > 10 else ""})
                 elif w[0] == "V" and int(w[1]) in res:
                     res[int(w[1])]["values"] = [float.fromhex(x) if x not in ("inf", "-inf", "nan", "-nan") else float("nan")
                                                 for x in w[3:3 + int(w[2])]]
@@ -315,6 +320,9 @@ def judge(ctx, cases, res, combos, stats):
             continue
         n_eval += len(r["rows"])
         ref = r["rows"][0]
+        if c["region"] in ("mds", "mdsl", "diff", "tri", "cli") and c["N"] >= 8:
+            stats.setdefault("_asg", set()).update((c["id"], row["asg"]) for row in r["rows"])
+            stats["assignment_tracked_cases"] = stats.get("assignment_tracked_cases", 0) + 1
         if "values" in r and c["region"] in ("mds", "mdsl", "cli"):
             exp = sym_expected(c)
             stats["closed_form_checked"] = stats.get("closed_form_checked", 0) + 1
@@ -358,7 +366,7 @@ def judge(ctx, cases, res, combos, stats):
 EMBED_DENSE = ("isomap", "lisomap", "mds", "lmds", "dm")
 EMBED_SPARSE = ("klle", "kltsa", "hlle")
 EMBED_TOL_DENSE = 1e-10      # Gram matrix of the embedding, relative to its largest entry
-EMBED_TOL_SPARSE = 1e-5      # tolerance stream: null-space eigenproblems amplify the re-association of the
+EMBED_TOL_SPARSE = 1e-4      # tolerance stream: null-space eigenproblems amplify the re-association of the
                              # triplet sums by their conditioning (measured: 1e-11 .. 5e-9)
 
 
@@ -680,6 +688,8 @@ def run(ctx):
             for c, rep in races[:3]:
                 ctx.violation(dict(c, combos=["4:2:1", "8:1:1", "3:1:0"], tsan=True),
                               "ThreadSanitizer+Archer (clang/libomp build) reports a data race inside tapkee: " + rep)
+    if "_asg" in stats:
+        stats["distinct_iteration_to_thread_maps_observed (varies from run to run: dynamic schedules)"] = len(stats.pop("_asg"))
     for c in cases:
         hist[c["region"]] = hist.get(c["region"], 0) + 1
     sizes = {}
